@@ -102,20 +102,20 @@ def udiv_qrnnd_preinv2 (nh nl d di : Nat) : Nat × Nat :=
 /-- udiv_qrnnd_preinv (gmp-impl.h:2898-2900) -/
 def udiv_qrnnd_preinv (nh nl d di : Nat) : Nat × Nat := udiv_qrnnd_preinv2 nh nl d di
 
-/-- mpir_invert_pi1 / invert_pi1 (gmp-impl.h:2831-2861). -/
-def invert_pi1 (d1 d0 : Nat) : Nat :=
-  let v := invert_limb d1
-  let p := (d1 * v) % B
-  let p := (p + d0) % B
-  let (v, p) :=
-    if p < d0 then
-      let v := (v + B - 1) % B
-      let mask := if p ≥ d1 then B - 1 else 0      -- -(mp_limb_t)(p >= d1)
-      let p := (p + B - d1) % B
-      let v := (v + mask) % B
-      let p := (p + B - (mask &&& d1)) % B
-      (v, p)
-    else (v, p)
+/-- mpir_invert_pi1, gmp-impl.h:2837-2844: `if (_p < d0) { _v--; mask = -(_p >= d1); _p -= d1; _v += mask; _p -= mask & d1; }`.
+    Returns (v, p). -/
+def pi1PhaseA (v p d1 d0 : Nat) : Nat × Nat :=
+  if p < d0 then
+    let v := (v + B - 1) % B
+    let mask := if p ≥ d1 then B - 1 else 0      -- -(mp_limb_t)(p >= d1)
+    let p := (p + B - d1) % B
+    let v := (v + mask) % B
+    let p := (p + B - (mask &&& d1)) % B
+    (v, p)
+  else (v, p)
+
+/-- mpir_invert_pi1, gmp-impl.h:2845-2857: add the high limb of d0·v, decrement v on carry (twice if p:t0 >= d). -/
+def pi1PhaseB (v p d1 d0 : Nat) : Nat :=
   let (t1, t0) := umul_ppmm d0 v
   let p := (p + t1) % B
   if p < t1 then
@@ -125,26 +125,45 @@ def invert_pi1 (d1 d0 : Nat) : Nat :=
     else v
   else v
 
-/-- udiv_qr_3by2 (gmp-impl.h:2871-2896).  Returns (q, r1, r0). -/
-def udiv_qr_3by2 (n2 n1 n0 d1 d0 dinv : Nat) : Nat × Nat × Nat :=
-  let (q, q0) := umul_ppmm n2 dinv
-  let (q, q0) := add_ssaaaa q q0 n2 n1
+/-- mpir_invert_pi1 / invert_pi1 (gmp-impl.h:2831-2861). -/
+def invert_pi1 (d1 d0 : Nat) : Nat :=
+  let v := invert_limb d1
+  let p := (d1 * v) % B
+  let p := (p + d0) % B
+  let vp := pi1PhaseA v p d1 d0
+  pi1PhaseB vp.1 vp.2 d1 d0
+
+/-- udiv_qr_3by2, gmp-impl.h:2877-2881: the two most significant limbs of n − q'·d (− d). -/
+def tb2Rem (q n1 n0 d1 d0 : Nat) : Nat × Nat :=
   let r1 := (n1 + B - (d1 * q) % B) % B
   let (r1, r0) := sub_ddmmss r1 n0 d1 d0
   let (t1, t0) := umul_ppmm d0 q
-  let (r1, r0) := sub_ddmmss r1 r0 t1 t0
-  let q := (q + 1) % B
-  let (q, r1, r0) :=
-    if r1 ≥ q0 then
-      let (r1, r0) := add_ssaaaa r1 r0 d1 d0
-      ((q + B - 1) % B, r1, r0)
-    else (q, r1, r0)
+  sub_ddmmss r1 r0 t1 t0
+
+/-- udiv_qr_3by2, gmp-impl.h:2888-2895: `if (UNLIKELY (r1 >= d1)) if (r1 > d1 || r0 >= d0) { q++; r -= d }`. -/
+def tb2Adj2 (q r1 r0 d1 d0 : Nat) : Nat × Nat × Nat :=
   if r1 ≥ d1 then
     if r1 > d1 || r0 ≥ d0 then
       let (r1, r0) := sub_ddmmss r1 r0 d1 d0
       ((q + 1) % B, r1, r0)
     else (q, r1, r0)
   else (q, r1, r0)
+
+/-- udiv_qr_3by2, gmp-impl.h:2884-2895: conditionally adjust q and the remainder (q already incremented):
+    `if (r1 >= q0) { q--; r += d }`, then the unlikely second correction. -/
+def tb2Adjust (q q0 r1 r0 d1 d0 : Nat) : Nat × Nat × Nat :=
+  if r1 ≥ q0 then
+    let (r1, r0) := add_ssaaaa r1 r0 d1 d0
+    tb2Adj2 ((q + B - 1) % B) r1 r0 d1 d0
+  else tb2Adj2 q r1 r0 d1 d0
+
+/-- udiv_qr_3by2 (gmp-impl.h:2871-2896).  Returns (q, r1, r0). -/
+def udiv_qr_3by2 (n2 n1 n0 d1 d0 dinv : Nat) : Nat × Nat × Nat :=
+  let (q, q0) := umul_ppmm n2 dinv
+  let (q, q0) := add_ssaaaa q q0 n2 n1
+  let (r1, r0) := tb2Rem q n1 n0 d1 d0
+  let q := (q + 1) % B
+  tb2Adjust q q0 r1 r0 d1 d0
 
 /-- one Newton step of modlimb_invert: inv = 2*inv - inv*inv*n (gmp-impl.h:3094). -/
 def minvStep (inv n : Nat) : Nat := ((2 * inv) % B + B - (((inv * inv) % B) * n) % B) % B
